@@ -270,7 +270,7 @@ def blocks(fnode):
       yield h.body
 
 
-def expand_locals(fn, expr, module_assigns=None, depth=6):
+def expand_locals(fn, expr, module_assigns=None, depth=6, at=None):
   """A copy of `expr` in which every local that is assigned exactly once in `fn` (by a plain `name = value`,
   outside loops) is replaced by its value, recursively; names bound once at module level (module_assigns:
   name -> [value nodes]) are replaced as well.  Used to look through temporaries and hoisted constants."""
@@ -285,7 +285,9 @@ def expand_locals(fn, expr, module_assigns=None, depth=6):
         counts[tgt.id] = counts.get(tgt.id, 0) + 1
         if op == 'store' and val is not None and isinstance(st, ast.Assign) and len(st.targets) == 1 and st.targets[0] is tgt:
           defs[tgt.id] = val
-          if enclosing_loops(fn, st):
+          lp = enclosing_loops(fn, st)
+          # a temporary of one loop iteration may be looked through from a use inside the same (innermost) loop
+          if lp and not (at is not None and enclosing_loops(fn, at)[:len(lp)] == lp):
             in_loop.add(tgt.id)
     if isinstance(st, (ast.For, ast.AsyncFor)):
       for n in ast.walk(st.target):
@@ -305,3 +307,51 @@ def expand_locals(fn, expr, module_assigns=None, depth=6):
         return Sub(self.d - 1).visit(copy.deepcopy(module_assigns[node.id][0]))
       return node
   return Sub(depth).visit(copy.deepcopy(expr))
+
+
+def _terminal(block):
+  """The block always leaves the enclosing statement list (return / raise / continue / break as its last statement)."""
+  return bool(block) and isinstance(block[-1], (ast.Return, ast.Raise, ast.Continue, ast.Break))
+
+
+def path_conditions(root, node, stop_at=None):
+  """[(test, polarity)] known to hold whenever `node` executes: the tests of the enclosing If statements and, for every
+  enclosing statement list, the negations of earlier `if c: <return|raise|continue|break>` guards (early exits).  Flattened:
+  a positive conjunction contributes its conjuncts, a negated disjunction the negations of its disjuncts, `not x` flips."""
+  raw = list(enclosing_tests(root, node, stop_at))
+  pm = parents(root)
+  child = node
+  cur = pm.get(id(node))
+  while cur is not None:
+    for field in ('body', 'orelse', 'finalbody'):
+      blk = getattr(cur, field, None)
+      if isinstance(blk, list) and any(child is s for s in blk):
+        for prev in blk:
+          if prev is child:
+            break
+          if isinstance(prev, ast.If) and _terminal(prev.body) and not prev.orelse:
+            raw.append((prev.test, False))
+          elif isinstance(prev, ast.If) and prev.orelse and _terminal(prev.orelse) and not _terminal(prev.body):
+            raw.append((prev.test, True))
+    if stop_at is not None and cur is stop_at:
+      break
+    if isinstance(cur, (ast.FunctionDef, ast.AsyncFunctionDef)) and cur is not root:
+      break
+    child = cur
+    cur = pm.get(id(cur))
+  out = []
+
+  def add(t, pol):
+    if isinstance(t, ast.UnaryOp) and isinstance(t.op, ast.Not):
+      add(t.operand, not pol)
+    elif isinstance(t, ast.BoolOp) and isinstance(t.op, ast.And) and pol:
+      for v in t.values:
+        add(v, True)
+    elif isinstance(t, ast.BoolOp) and isinstance(t.op, ast.Or) and not pol:
+      for v in t.values:
+        add(v, False)
+    else:
+      out.append((t, pol))
+  for t, pol in raw:
+    add(t, pol)
+  return out
